@@ -556,6 +556,19 @@ func (e *evalEnv) addrOf(n *Node) (string, types.Type) {
 	switch n.Kind {
 	case "paren":
 		return e.addrOf(n.Args[0])
+	case "ident":
+		// a local variable whose address is taken lives in an allocated cell
+		if _, bound := e.scope[n.Name]; !bound {
+			for _, b := range e.fr.fn.Blocks {
+				for _, ins := range b.Instrs {
+					if al, ok := ins.(*ssa.Alloc); ok && al.Comment == n.Name {
+						if v, ok := e.fr.vals[al]; ok {
+							return v.L[0], elemOf(al.Type())
+						}
+					}
+				}
+			}
+		}
 	case "unary":
 		if n.Op == "*" {
 			x := e.eval(n.Args[0])
